@@ -190,3 +190,37 @@ Qed.
 Lemma crequest_checked_pass p dagon ps o kw full :
   run_precheck p o kw = Ok tt -> crequest_checked p dagon ps o kw full = crequest p dagon ps o kw full.
 Proof. unfold crequest_checked. now intros ->. Qed.
+
+(* ---------- Model/LazyXref.v: a keyword value without deferred objects is an ordinary value ---------- *)
+From Verif Require Import Model.LazyXref.
+
+Definition plain (v : str) : Prop := ~ In mopen v /\ ~ In mtuple v.
+
+Lemma plain_tail c v : plain (c :: v) -> plain v.
+Proof. intros [H1 H2]. split; intros H; [apply H1|apply H2]; now right. Qed.
+
+Lemma subst_plain rec : forall v st acc, plain v -> subst rec v None st acc = (st, Ok (acc ++ v)).
+Proof.
+  induction v as [|c v IH]; intros st acc Hp; cbn [subst]; [now rewrite app_nil_r|].
+  destruct (Ascii.eqb c mopen) eqn:E.
+  - apply Ascii.eqb_eq in E. subst c. exfalso. apply (proj1 Hp). now left.
+  - destruct (Ascii.eqb c mtuple) eqn:E2.
+    + apply Ascii.eqb_eq in E2. subst c. exfalso. apply (proj2 Hp). now left.
+    + rewrite IH; [|eapply plain_tail; eauto]. rewrite <- app_assoc. reflexivity.
+Qed.
+
+Lemma scan_plain maxd : forall v depth, plain v -> scan v depth None maxd = [].
+Proof.
+  induction v as [|c v IH]; intros depth Hp; cbn [scan]; [reflexivity|].
+  assert (Hv : plain v) by (eapply plain_tail; eauto).
+  destruct (Ascii.eqb c mopen) eqn:E.
+  - apply Ascii.eqb_eq in E. subst c. exfalso. apply (proj1 Hp). now left.
+  - destruct (Ascii.eqb c "["%char); [now apply IH|]. destruct (Ascii.eqb c "]"%char); now apply IH.
+Qed.
+
+(* no deferred object inside => evaluation leaves the value alone, and it contributes neither edges nor dependencies *)
+Theorem plain_value_is_inert rec v st :
+  plain v -> subst rec v None st [] = (st, Ok v) /\ refs_shallow v = [] /\ refs_all v = [].
+Proof.
+  intros Hp. split; [now rewrite subst_plain|]. split; now apply scan_plain.
+Qed.
